@@ -145,6 +145,11 @@ def trace_cases(gw, scratch):
     return out
 
 
+def _txt(x):
+    """text items arrive as bytes on a gateway reconfigured with py3str_as_py2str"""
+    return x.decode() if isinstance(x, bytes) else x
+
+
 def repeat_cases(gw, scratch):
     """the same function / module / source string executed several times on one gateway: every execution runs the given code afresh
     (state created when the code is defined or first run - a mutable default, a module-level name - does not leak into the next one)"""
@@ -225,17 +230,17 @@ def close_cases(gw):
         ch.send(rep)
         ch.close()
         rep.send("go")
-        c["refused"] = rep.receive(10) == "refused"
+        c["refused"] = _txt(rep.receive(10)) == "refused"
     except Exception:  # noqa: BLE001
         pass
     out.append(c)
     ch = gw.remote_exec("try:\n    channel.close()\n    channel.send('closed')\nexcept OSError:\n    channel.send('refused')\nchannel.receive()\nchannel.send('end')")
     c = {"k": "close", "refused": False, "closed_at_end": False, "open_before_end": False}
     try:
-        c["refused"] = ch.receive(10) == "refused"
+        c["refused"] = _txt(ch.receive(10)) == "refused"
         c["open_before_end"] = not ch.isclosed()
         ch.send(None)
-        last = ch.receive(10)
+        last = _txt(ch.receive(10))
         ch.waitclose(10)
         c["closed_at_end"] = ch.isclosed() and last == "end"
     except Exception:  # noqa: BLE001
@@ -317,6 +322,16 @@ def run(ctx):
             cases += stdio_cases(gw, rng, ctx.quick)
         finally:
             group.terminate(timeout=3)
+    # remote_exec must not depend on the gateway's string-coercion switches: the same cases on a reconfigured gateway
+    group = execnet.Group()
+    try:
+        gw = group.makegateway("popen")
+        gw.reconfigure(py2str_as_py3str=False, py3str_as_py2str=True)
+        cases += repeat_cases(gw, ctx.scratch)
+        cases += close_cases(gw)
+        cases += trace_cases(gw, ctx.scratch)
+    finally:
+        group.terminate(timeout=3)
     # the stdio cases once more on a gevent worker (its own fdopen / file objects), when gevent is installed
     try:
         import gevent  # noqa: F401
